@@ -155,6 +155,10 @@ func handTargets() []target {
 	add("schema/deftype", "(s:deftype \"mytype\" s:string (s:len 3)) (s:validate mytype \"ab\")")
 	add("schema/has-key", "(s:validate (s:make-validator \"v\" s:sorted-map (s:has-key \"a\" s:int) (s:may-have-key \"b\" s:string)) (sorted-map \"a\" \"x\"))")
 	add("json/roundtrip", "(json:dump-string (json:load-string \"{\\\"b\\\":[1,2,{\\\"z\\\":null,\\\"a\\\":true}],\\\"a\\\":1.5}\"))")
+	add("json/loaded-keys", "(keys (json:load-string \"{\\\"k07\\\":1,\\\"k03\\\":2,\\\"k11\\\":3,\\\"k01\\\":4,\\\"k09\\\":5,\\\"k05\\\":6,\\\"k12\\\":7,\\\"k02\\\":8}\"))")
+	add("json/loaded-print", "(json:load-string \"{\\\"k07\\\":1,\\\"k03\\\":2,\\\"k11\\\":3,\\\"k01\\\":4,\\\"k09\\\":5,\\\"k05\\\":{\\\"z\\\":1,\\\"y\\\":2,\\\"x\\\":3,\\\"w\\\":4,\\\"v\\\":5}}\")")
+	add("json/loaded-format", "(format-string \"{}\" (json:load-string \"{\\\"k07\\\":1,\\\"k03\\\":2,\\\"k11\\\":3,\\\"k01\\\":4,\\\"k09\\\":5,\\\"k05\\\":6}\"))")
+	add("help/package-core", "(help:help-package 'lisp)")
 	add("json/message", "(json:dump-message (sorted-map \"b\" 1 \"a\" (vector 1 2)))")
 	add("string/format", "(format-string \"{} {} {}\" 'a (vector 1 (sorted-map 'x 1)) 1.5)")
 	add("regexp", "(regexp:regexp-match? (regexp:regexp-compile \"^a+$\") \"aaa\")")
